@@ -42,6 +42,15 @@ class threads:
 # ----------------------------------------------------------------------------------------------
 # the oracle
 
+def _ovlp_cond(plan):
+    """Condition number of the normalised Gaussian overlap matrix the S-solve of a Gaussian plan inverts, built from the
+    plan's public ladder (alphas, alpha_norms) so that the tolerance does not depend on how the plan stores it."""
+    a = np.asarray(plan.alphas, dtype=float)
+    n = np.asarray(plan.alpha_norms, dtype=float)
+    S = (np.pi / (a[:, None] + a[None, :])) ** 1.5 * n[:, None] * n[None, :]
+    return float(np.linalg.cond(S))
+
+
 def _onehot(n, i):
     e = np.zeros(n)
     e[i] = 1.0
@@ -701,7 +710,7 @@ def plan_transform(case, ctx):
         normwise = 1e-15
         cond = 1.0
     else:
-        cond = float(np.linalg.cond(plan._alpha_transform))
+        cond = _ovlp_cond(plan)
         normwise = 1e-13 * cond
         ctx.event("cond<=1e9" if cond <= 1e9 else "cond>1e9")
         if cond <= 1e9:
@@ -852,7 +861,7 @@ def composite_conv(case, ctx):
     ns = case["nldf"]
     ctx.event("%s/%s/%s" % (ns["kind"], ns["plan"], ns["interp"]))
     # Gaussian plans: every version applies the S-solve at least once (k: on the output side, i=0)
-    cond = float(np.linalg.cond(gen.plan._alpha_transform)) if ns["plan"] == "gaussian" else 1.0
+    cond = _ovlp_cond(gen.plan) if ns["plan"] == "gaussian" else 1.0
     fac = 1e-13 * max(cond, 1e3)
     ctx.event("bound<1e-4" if fac < 1e-4 else "bound_vacuous")
     if fac < 1e-4:
